@@ -829,13 +829,20 @@ def argform_cases(ctx, count):
         "fortran": lambda a: np.asfortranarray(a),
         "strided": lambda a: (np.repeat(a, 2, axis=-1)[..., ::2] if a.ndim else a),
     }
+    if not ctx.thorough:
+        # quick tier: a seed-rotated subset of the signatures (each new signature costs a Numba compilation on a
+        # cold cache); thorough — and any run escalated by a changed anchor — takes all of them
+        names = sorted(forms)
+        pick = {names[ctx.seed % len(names)]}
+        forms = {kk: v for kk, v in forms.items() if kk in pick}
     for _ in range(count):
         lp = gen_lp_shape(R, R.randint(1, 5), R.randint(1, 3), R.randint(0, 2))
         c, Aub, bub, Aeq, beq = lp.arrays()
         ref = linprog_simplex(c, A_ub=Aub, b_ub=bub, A_eq=Aeq, b_eq=beq, max_iter=10 ** 6, piv_options=opts)
         variants = [(nm_, dict(c=f(c), A_ub=f(Aub), b_ub=f(bub), A_eq=f(Aeq), b_eq=f(beq), max_iter=10 ** 6,
                                piv_options=opts)) for nm_, f in forms.items()]
-        variants.append(("numpy-scalars", dict(c=c, A_ub=Aub, b_ub=bub, A_eq=Aeq, b_eq=beq, max_iter=np.int64(10 ** 6),
+        if ctx.thorough or ctx.seed % 2 == 0:
+          variants.append(("numpy-scalars", dict(c=c, A_ub=Aub, b_ub=bub, A_eq=Aeq, b_eq=beq, max_iter=np.int64(10 ** 6),
                                                piv_options=PivOptions(np.float64(FEA_TOL), np.float64(TOL_PIV),
                                                                       np.float64(TOL_RATIO_DIFF)))))
         if ctx.thorough:
